@@ -213,6 +213,12 @@ Definition final (h : list op) : store := fst (run h).
 Definition served (h : list op) (q : qmsg) : outcome :=
   snd (exec_query (final h) q None None).
 
+(** writeDump / readDump: a dump is the content of the store (packed and
+    unpacked again); loading it stores every dumped entry under its key — into a
+    new cache ([fresh]) or on top of what the cache holds. *)
+Definition reload (fresh : bool) (dump st : store) : store :=
+  if fresh then dump else dump ++ st.
+
 (** * The key derivation before commit 70156c0 (defect F3), kept only for the
     refutation examples: [byte(Qtype << 8)] is always 0 and the class is absent. *)
 Definition legacy_key_of (ad cd do : bool) (qu : question) : bytes :=
